@@ -14,7 +14,11 @@ EXPLANATION = ('Each solver is executed on symbolic reals (parameters, position,
                'real input on that path.')
 BOUNDS = ['arrays of 1 point (the closure is pointwise)', 'geometry enumerated 1,2,3']
 OUTSIDE = ['values produced inside SciPy integrations (Sedov/Guderley/RMTV profiles): only the Python-level '
-           'closure that derives one returned field from the others is checked']
+           'closure that derives one returned field from the others is checked',
+           'Mader inside the fan and in the transition cell: the solver returns cell averages of p and rho next to the '
+           'cell-centre sound speed (documented grid dependence), so the pointwise closure holds to O(dx^2) only; its constant '
+           'state is covered', 'radiative shocks: ideal-gas closure per profile node is part of C12; black-box Noh: C16/C02',
+           'general-EOS Riemann solver: states at the wave positions on small tables (see C04), JWL flag in the thorough tier']
 ASSUMPTIONS = []
 META = {
     'level_text': ('Bounded symbolic check of the real _run code: for every solver covered, all real parameters, the '
@@ -319,6 +323,141 @@ class RmtvEOS(Obligation):
                     cx.eq('%s does not depend on module globals left by earlier evaluations' % k, cx[k], SymReal(T.substitute(t, sub)))
 
 
+class EHEPEOS(Obligation):
+    """escape of HE products: polytropic products with gamma = 3 in every region the solver distinguishes"""
+
+    def __init__(self):
+        from . import ehep_common as E
+        self.E = E
+        self.m = H.mod(E.EM)
+        self.id = 'C03.ehep'
+        self.modules = [self.m]
+        self.extra_shim = E.shim_extra()
+        self.functions = [self.m.EscapeOfHEProducts._run, self.m.EscapeOfHEProducts.p_rho]
+        self.bounds = 'D, rho_0, up, xtilde, xmax, tmax, x, t symbolic; every region = a path'
+        self.max_paths = 80
+
+    def build(self, mk):
+        out, s = self.E.run(mk)
+        out.pop('_corners')
+        return out
+
+    def domain(self, V):
+        return self.E.domain(V)
+
+    def claims(self, cx):
+        if cx['_region'] is None:
+            return
+        rho, p, e, c = cx['density'], cx['pressure'], cx['specific_internal_energy'], cx['sound_speed']
+        tag = 'region %s: ' % cx['_region']
+        cx.eq(tag + 'p = (gamma-1) rho e with gamma = 3', p, 2 * rho * e)
+        cx.eq(tag + 'c^2 rho = gamma p with gamma = 3', c * c * rho, 3 * p)
+
+
+class MaderEOS(Obligation):
+    def __init__(self, gamma):
+        self.gamma = gamma
+        self.m = H.mod('exactpack.solvers.mader.rarefaction')
+        self.id = 'C03.mader.gamma=%s' % gamma
+        self.modules = [self.m]
+        self.functions = [self.m.rare]
+        self.bounds = 'time, x, dx, p_cj, d_cj, u_piston symbolic; gamma fixed; claims on the constant-state branch (fan values are cell averages)'
+        self.max_paths = 50
+
+    def build(self, mk):
+        g = K(mk, self.gamma)
+        r = self.m.rare(mk('time'), mk('xlab'), mk('dx'), mk('p_cj'), mk('d_cj'), g, mk('u_piston'))
+        um = (g - 1) * (mk('d_cj') / (g + 1) - 2 * (g * mk('d_cj') / (g + 1)) / (g - 1)) / (g + 1)
+        xp = (g + 1) / 2 * mk('time') * (mk('u_piston') - um)            # fan tail (lagrangian distance from the front)
+        return {'u': r[0], 'p': r[1], 'c': r[2], 'rho': r[3], 'xdet': r[4], '_g': g, '_pcj': mk('p_cj'), '_dcj': mk('d_cj'),
+                '_xp': xp, '_dx': mk('dx')}
+
+    def domain(self, V):
+        return [T.gt(V(n), T.ZERO) for n in ('time', 'dx', 'p_cj', 'd_cj')] + [T.ge(V('u_piston'), T.ZERO)]
+
+    def claims(self, cx):
+        g = cx['_g']
+        # inside the fan the solver returns CELL AVERAGES of p and rho next to the cell-centre sound speed (documented grid
+        # dependence): the pointwise closure then holds only to O(dx^2) and is outside the claim.  The constant state behind
+        # the fan tail is exact.
+        c_ = cx['xdet'] < cx['_xp'] - cx['_dx'] / 10
+        burnt = c_ if cx.symbolic else bool(c_)
+        cx.eq('c^2 rho = gamma p', cx['c'] * cx['c'] * cx['rho'], g * cx['p'], when=burnt)
+        # the products expand isentropically from the CJ state: p / rho^gamma = p_cj / rho_cj^gamma,
+        # rho_cj = (gamma+1)/gamma rho_0, rho_0 = (gamma+1) p_cj / d_cj^2   (integer powers: gamma = n/q)
+        fr = Fraction(self.gamma)
+        n, q = fr.numerator, fr.denominator
+        rho0 = (g + 1) * cx['_pcj'] / (cx['_dcj'] * cx['_dcj'])
+        rcj = (g + 1) / g * rho0
+        cx.eq('isentrope through the CJ state: p^q rho_cj^n = p_cj^q rho^n', cx['p'] ** q * rcj ** n, cx['_pcj'] ** q * cx['rho'] ** n,
+              when=burnt)
+
+
+class SDRZEOS(Obligation):
+    def __init__(self):
+        self.m = H.mod('exactpack.solvers.sdrz.sdrz')
+        self.id = 'C03.sdrz'
+        self.modules = [self.m]
+        self.extra_shim = {'ExactSolution': Recorder}
+        self.functions = [self.m.SteadyDetonationReactionZone.__init__, self.m.SteadyDetonationReactionZone.run_tvec]
+        self.bounds = 'D, rho_0, gamma and one particle time t > 0 symbolic (t <= 1 and t > 1 paths)'
+
+    def build(self, mk):
+        s = self.m.SteadyDetonationReactionZone(D=mk('D'), rho_0=mk('rho_0'), gamma=mk('gamma'))
+        f = H.first(H.fields(s.run_tvec(H.arr([mk('t')]))))
+        out = {k: f[k] for k in ('density', 'pressure', 'sound_speed', 'velocity', 'reaction_progress')}
+        out['_g'], out['_D'], out['_rho0'] = mk('gamma'), mk('D'), mk('rho_0')
+        return out
+
+    def domain(self, V):
+        return [T.gt(V('t'), T.ZERO), T.gt(V('gamma'), T.ONE), T.gt(V('D'), T.ZERO), T.gt(V('rho_0'), T.ZERO)]
+
+    def claims(self, cx):
+        g, D, rho0 = cx['_g'], cx['_D'], cx['_rho0']
+        rho, p, c, u, lam = cx['density'], cx['pressure'], cx['sound_speed'], cx['velocity'], cx['reaction_progress']
+        cx.eq('c^2 rho = gamma p', c * c * rho, g * p)
+        # energy balance across the steady zone with the declared gamma-law + heat release lam*q, q = D^2/(2(gamma^2-1)):
+        # e + p/rho + (D-u)^2/2 = D^2/2 + lam q  with e = p/((gamma-1) rho)
+        q = D * D / (2 * (g * g - 1))
+        cx.eq('Bernoulli with e = p/((gamma-1) rho) and heat release lambda q', p / ((g - 1) * rho) + p / rho + (D - u) * (D - u) / 2,
+              D * D / 2 + lam * q)
+
+
+class EPPistonEOS(Obligation):
+    """elastic-plastic piston: both shocked states lie on the Mie-Gruneisen surface (stated independently here)"""
+
+    def __init__(self, model):
+        import scipy.optimize as so
+        from symx import stubs
+        self.model = model
+        self.m = H.mod('exactpack.solvers.ep_piston.ep_piston')
+        self.id = 'C03.eppiston.%s' % model
+        self.modules = [self.m]
+        self.extra_shim = {'sci_opt': H.ModProxy(so, fsolve=stubs.fsolve_stub)}
+        self.functions = [self.m.EPpiston.__init__, self.m.EPpiston.Gruneisen, self.m.EPpiston.Plastic_Residual]
+        self.bounds = 'material parameters and piston speed symbolic; elasticity model fixed; plastic wave speed = root of the real residual (fsolve contract)'
+        self.skip_validation = True
+
+    def build(self, mk):
+        s = self.m.EPpiston(model=self.model, **{n: mk(n) for n in ('gamma', 'c0', 's0', 'G', 'Y', 'rho0', 'up')})
+        out = {k: getattr(s, k) for k in ('rho_y', 'e_y', 'p_y', 'rho2', 'e2', 'p2')}
+        out.update({'_' + n: mk(n) for n in ('gamma', 'c0', 's0', 'rho0')})
+        return out
+
+    def domain(self, V):
+        return [T.gt(V(n), T.ZERO) for n in ('gamma', 'c0', 's0', 'G', 'Y', 'rho0', 'up')] + [T.lt(V('Y'), V('G'))]
+
+    def claims(self, cx):
+        G, c0, s0, rho0 = cx['_gamma'], cx['_c0'], cx['_s0'], cx['_rho0']
+
+        def mg(rho, e):
+            eta = 1 - rho0 / rho
+            ph = rho0 * c0 * c0 * eta / ((1 - s0 * eta) * (1 - s0 * eta))
+            return ph + G * rho * (e - eta * ph / (2 * rho0))
+        cx.eq('yield state on the Mie-Gruneisen surface', cx['p_y'], mg(cx['rho_y'], cx['e_y']))
+        cx.eq('plastic state on the Mie-Gruneisen surface', cx['p2'], mg(cx['rho2'], cx['e2']))
+
+
 def obligations(tier):
     obs = []
     for g in (1, 2, 3):
@@ -339,4 +478,17 @@ def obligations(tier):
     for gl, gr in ([(Fraction(5, 3), Fraction(7, 5))] if tier == 'quick' else R.GAMMA_PAIRS_FULL):
         for pat in ('SCS', 'SCR', 'RCS', 'RCR'):
             obs.append(RiemannPointEOS(gl, gr, pat))
+    obs.append(EHEPEOS())
+    for gam in ([Fraction(3)] if tier == 'quick' else H.G_FULL):
+        obs.append(MaderEOS(gam))
+    obs.append(SDRZEOS())
+    for model in ('hypo', 'hyperIfin', 'hyperFin'):
+        obs.append(EPPistonEOS(model))
+    # general-EOS Riemann driver (ideal-gas flag; JWL flag in the thorough tier): closure of the states it assembles at the
+    # wave positions, with each side's own gamma
+    from . import geos
+    gobs = geos.obligations('C03', tier, patterns=('RCR', 'SCS') if tier == 'quick' else ('RCR', 'RCS', 'SCR', 'SCS'))
+    if tier == 'quick':
+        gobs = [o for o in gobs if 'ode_contract' in o.id or '.RCR.00.' in o.id or '.SCS.11.' in o.id]
+    obs += gobs
     return obs
